@@ -352,6 +352,160 @@ def deep_wiring_leg(c):
         c.violation('delivery through the Deep object: %s' % out['problems'], p_)
 
 
+ISO_INVS = ['FlushCoversOwn', 'PendingAccurate', 'WaitsOnlyOwn']
+
+
+def iso_cfg(shared=False, jobs=2):
+    return dict(spec='Spec', constants=dict(Handlers={'A', 'B'}, MaxJobs=jobs, SharedTable=shared),
+                invariants=ISO_INVS, deadlock=False)
+
+
+class _ManualPool:
+    """An executor whose jobs finish when the replayed behaviour says so (no threads: every step is deterministic)."""
+
+    def __init__(self, waits):
+        self.waits = waits
+        self.futures = []
+
+    def submit(self, fn, *a, **kw):
+        from concurrent.futures import Future, TimeoutError as FTimeout
+        waits = self.waits
+
+        class ManualFuture(Future):
+            def _wait(self, what, timeout):
+                if not self.done():
+                    waits.append(self)
+                    if timeout is not None:
+                        raise FTimeout()          # "the time flush is willing to wait has passed"
+                    raise RuntimeError('flush would wait for ever on an unfinished job')
+                return what(self, 0)
+
+            def exception(self, timeout=None):
+                return self._wait(Future.exception, timeout)
+
+            def result(self, timeout=None):
+                return self._wait(Future.result, timeout)
+        f = ManualFuture()
+        f.set_running_or_notify_cancel()
+        self.futures.append(f)
+        return f
+
+    def shutdown(self, wait=True, **kw):
+        pass
+
+
+def isolation_leg(c, rng, nwalks):
+    """HandlerIsolation behaviours replayed into two real TaskHandlers of one process (jobs finish when the behaviour
+    says so): after every step the handlers' open flags and pending tables are compared with the model state, and a
+    flush has to wait for exactly the unfinished jobs of its own handler."""
+    from deep.task import TaskHandler
+    import deep.task as task_mod
+    c.mc_expect_violation('HandlerIsolation', iso_cfg(shared=True), 'deviation SharedTable', what='FlushCoversOwn')
+    r = c.mc('HandlerIsolation', iso_cfg(), label='two handlers, 2 jobs each', dump=True, coverage=False)
+    from ..tlaparse import to_json
+    done = 0
+    for walk in core.random_walks(r.graph, rng, nwalks, max_len=14):
+        handlers, pools, waits, job_of = {}, {}, [], {}
+        for h in ('A', 'B'):
+            th = TaskHandler()
+            th._pool.shutdown(wait=False)
+            pools[h] = _ManualPool(waits)
+            th._pool = pools[h]
+            handlers[h] = th
+        steps, bad = [], None
+        for (_, _, st) in walk[1:]:
+            name, h, jid = to_json(st['last'])
+            steps.append([name, h, jid])
+            th = handlers[h]
+            try:
+                if name == 'Submit':
+                    n0 = len(pools[h].futures)
+                    th.submit_task(lambda: None)
+                    if len(pools[h].futures) != n0 + 1:
+                        bad = 'submit on an open handler did not reach its pool'
+                        break
+                    job_of[id(pools[h].futures[-1])] = (h, jid)
+                elif name == 'Refused':
+                    try:
+                        th.submit_task(lambda: None)
+                        bad = 'a closed handler accepted a task'
+                        break
+                    except task_mod.IllegalStateException:
+                        pass
+                elif name == 'Finish':
+                    fut = [f for f in pools[h].futures if job_of[id(f)] == (h, jid)][0]
+                    fut.set_result(None)
+                elif name == 'Flush':
+                    del waits[:]
+                    box = {}
+
+                    def fl():
+                        try:
+                            th.flush()
+                            box['r'] = 'returned'
+                        except BaseException as ex:
+                            box['r'] = 'raised %r' % (ex,)
+                    t = threading.Thread(target=fl, daemon=True)
+                    t.start()
+                    t.join(3)
+                    waited = {job_of[id(f)] for f in waits}
+                    own = {tuple(j) for j in to_json(st['waited'])[h]} if isinstance(to_json(st['waited']), dict) else None
+                    unfinished = {job_of[id(f)] for f in pools[h].futures if not f.done()}
+                    if t.is_alive():
+                        # it blocks on something we cannot see (another way of waiting): fine as long as it is held by
+                        # an unfinished job of its own; let everything finish and go on to the next behaviour
+                        for hh in pools:
+                            for f in pools[hh].futures:
+                                if not f.done():
+                                    f.set_result(None)
+                        t.join(15)
+                        if not unfinished:
+                            bad = 'flush blocked although every job of its handler had finished'
+                        break
+                    if box.get('r') != 'returned':
+                        bad = 'flush %s' % box.get('r')
+                        break
+                    if not unfinished <= waited:
+                        bad = 'flush(%s) returned without waiting for its unfinished job(s) %s (it waited for %s)' % (
+                            h, sorted(unfinished - waited), sorted(waited))
+                        break
+                elif name == 'Reopen':
+                    th.open()
+            except BaseException as ex:
+                bad = 'step %s raised %r' % (name, ex)
+                break
+            # projection: open flags and the job numbers each handler still tracks
+            want_open = to_json(st['isOpen'])
+            got_open = {k: bool(handlers[k]._open) for k in handlers}
+            if got_open != want_open:
+                bad = 'open flags %s, model %s' % (got_open, want_open)
+                break
+            running = {tuple(j) for j in to_json(st['running'])}
+            for k in handlers:
+                alive = {job_of[id(f)] for f in pools[k].futures if not f.done()}
+                if alive != {j for j in running if j[0] == k}:
+                    raise tlc.MachineryError('isolation replay lost track of the jobs: %s vs %s' % (alive, running))
+                tracked = {job_of.get(id(f)) for f in handlers[k]._pending.values()}
+                if not alive <= tracked:
+                    bad = 'handler %s no longer tracks its unfinished job(s) %s (its table: %s)' % (
+                        k, sorted(alive - tracked), sorted(x for x in tracked if x))
+                    break
+            if bad:
+                break
+        for hh in pools:
+            for f in pools[hh].futures:
+                if not f.done():
+                    f.set_result(None)
+        c.traces_validated += 1
+        done += 1
+        c.note_case(key=('isolation', str(steps)), nontrivial=len({s_[1] for s_ in steps}) == 2)
+        if bad:
+            p_ = c.save_replay({'direction': 'S2C', 'module': 'HandlerIsolation', 'steps': steps, 'mismatch': bad})
+            c.violation('two handlers: %s after %s' % (bad, steps), p_)
+            return
+    c.sample({'direction': 'S2C', 'module': 'HandlerIsolation', 'walks': done})
+
+
 def run(c):
     quick = c.tier == 'quick'
     rng = random.Random(c.seed)
@@ -377,6 +531,7 @@ def run(c):
             max_runs=200 if quick else 3000, kind='line-schedule')
     real_pool_smoke(c, rng, 15 if quick else 150)
     deep_wiring_leg(c)
+    isolation_leg(c, rng, 60 if quick else 3000)
 
 
 if __name__ == '__main__':
